@@ -122,7 +122,7 @@ def run(chk):
     for c in load_corpus():
         corpus.append((c['op'], annot.dump(pp.parse(c['seq'])), c['size']))
     # ------------------------------------------------------------------ correspondence: the four expansions
-    n_ann = 90 if tier == 'quick' else 500
+    n_ann = 90 if tier == 'quick' else 160
     anns = []
     for i in range(n_ann):
         # one case in ten carries intervals (outside the property's quantifier: they are popped and never come back;
@@ -160,8 +160,9 @@ def run(chk):
         return im == '~'.join(annot.canon_dump(x) for x in m.split('~')) if m else im == m
 
     chk.correspond('corpus', DRV, corpus, line, impl, compare=cmp_)
-    chk.correspond('expansions', DRV, cases, line, impl, compare=cmp_,
-                   nontrivial_fn=lambda c, im: im.count('~') >= 1 and ('D' in im or '|L' in im))
+    for i in range(0, len(cases), 250):   # in batches: the replies of the large enumerations are megabytes each
+        chk.correspond('expansions', DRV, cases[i:i + 250], line, impl, compare=cmp_,
+                       nontrivial_fn=lambda c, im: im.count('~') >= 1 and ('D' in im or '|L' in im))
 
     # split() on full annotations without intervals (labile to the first piece, terminals only on the end pieces)
     sp = [annot.dump(gen_case(rng, 6)) for _ in range(300 if tier == 'quick' else 6000)]
